@@ -93,7 +93,14 @@ def end_steps(how):
     raise ValueError(how)
 
 
-def end_case(verb, place, how, pool=True, sessions=0, size=None, rest=None, listen="PASV", slow_close=False):
+ACTORS = [
+    [["cmd", "USER anonymous"], ["cmd", "PASV"], ["dconn"], ["cmd", "STOR a1"], ["dsend", 3]],  # upload waiting for the peer's bytes
+    [["cmd", "USER anonymous"], ["cmd", "PASV"], ["cmd", "RETR f"]],  # waiting for the data connection
+    [["cmd", "USER anonymous"], ["cmd", "EPSV"], ["dconn"]],  # listener + unused data connection
+]
+
+
+def end_case(verb, place, how, pool=True, sessions=0, size=None, rest=None, listen="PASV", slow_close=False, actors=0):
     """slow_close: the back-end close() that the unwinding worker performs is slow as well (it is released after the
     end): the dispatcher must wait for its cancelled tasks, Server.close() must not return before they are done"""
     steps, gates, files, block, payload = xfer.transfer_setup(verb, place, size=size, rest=rest, listen=listen)
@@ -105,7 +112,7 @@ def end_case(verb, place, how, pool=True, sessions=0, size=None, rest=None, list
     case = {
         "verb": verb, "place": list(place), "how": how, "steps": steps, "gates": gates, "pool": pool, "files": files,
         "payload": payload, "block": block, "sessions": sessions, "wait_future_timeout": 50, "listen": listen,
-        "slow_close": slow_close,
+        "slow_close": slow_close, "actors": ACTORS[:actors],
     }
     if place[0] == "bind":
         case["bind_gate"] = place[1]
@@ -158,7 +165,7 @@ def oracle(case, r):
     ended = (r.final["table"] - (0 if how == "close" else r.baseline["table"])) == 0
     ctrl_gone = r.raw.eof or how in ("rst", "eof", "ctrl_eof", "close")
     if how == "close":
-        left = xfer.norm_real(r.final)
+        left = xfer.norm_real(r.final)  # every session of the server, the bystanders' and the other active ones included
         if not getattr(r, "close_completed", False):
             bad.append(("close-hangs", "Server.close() has not completed although nothing is runnable any more"))
         if r.at_close is not None:
@@ -172,10 +179,18 @@ def oracle(case, r):
         left = xfer.norm_real(r.final, r.baseline)
         if not all(r.others_ok):
             bad.append(("others", "another session stopped answering after this one ended"))
-        keep = xfer.norm_real(r.final)
-        base = xfer.norm_real(r.baseline)
-        if any(k < b for k, b in zip(keep, base)):
-            bad.append(("others", f"resources of the other sessions were released: {dict(zip(xfer.SLOT_NAMES, keep))} < {dict(zip(xfer.SLOT_NAMES, base))}"))
+        f, b = r.final, r.baseline
+        lost = [k for k in ("ctrl", "ports_out", "data", "files", "slot", "user", "table") if f[k] < b[k]]
+        if not set(b["listeners"]) <= set(f["listeners"]):
+            lost.append("listeners")
+        rest = list(f["tasks"])
+        for t in b["tasks"]:
+            if t in rest:
+                rest.remove(t)
+            elif "tasks" not in lost:
+                lost.append("tasks")
+        if lost:
+            bad.append(("others", f"resources of the other sessions were released ({lost}): before {b}, after {f}"))
     if r.cut_done is None and how in ("quit", "error", "idle") and not r.raw.eof:
         bad.append(("not-ended", f"the session did not end on {how}"))
     if left != EMPTY:
@@ -225,7 +240,9 @@ def run_cases(ctx, cases, facts, stream):
     xs, oi = [], 0
     for case, r, q in runs:
         how = case["how"]
-        ctx.case((stream, case.get("script"), case["verb"], tuple(case["place"]), how, case["pool"], case["sessions"], case.get("listen"), case.get("slow_close")))
+        ctx.case((stream, case.get("script"), case["verb"], tuple(case["place"]), how, case["pool"], case["sessions"], case.get("listen"), case.get("slow_close"), len(case.get("actors") or ())))
+        if case.get("actors"):
+            ctx.count(f"concurrent_active_sessions:{1 + len(case['actors'])}")
         if case.get("slow_close"):
             ctx.count("slow_close")
         ctx.count(f"how:{how}")
@@ -260,9 +277,9 @@ def run_cases(ctx, cases, facts, stream):
             pre_model[0] = pre_real[0]  # the control socket may already be gone when its loss is what ends the session
         if how == "rst":
             pre_model[3] = pre_real[3]
-        if how == "close" and case["sessions"]:
+        if how == "close" and (case["sessions"] or case.get("actors")):
             # the other sessions end in the same instant, some before this one: the shared counters are not attributable
-            for i in (0, 5, 6, 7, 8):
+            for i in (0, 2, 3, 4, 5, 6, 7, 8) if case.get("actors") else (0, 5, 6, 7, 8):
                 pre_model[i] = pre_real[i]
         if pre_real != pre_model:
             ctx.disagree(stream + ":ledger-at-cut", tag, dict(zip(xfer.SLOT_NAMES, pre_model)), dict(zip(xfer.SLOT_NAMES, pre_real)))
@@ -309,6 +326,17 @@ def stage_cases(thorough):
                         if how == "idle" and sessions:
                             continue  # idle_timeout is server-wide: silent bystanders would be dropped as well
                         cases.append(end_case(verb, place, how, pool=pool, sessions=sessions))
+        # 2..4 sessions active at once, each in the middle of something different
+        main_place = ("gate", "read", 2) if verb == "RETR" else ("sent", 5) if verb in ("STOR", "APPE") else ("gate", "stat", 2)
+        for how in HOWS:
+            if how == "idle":
+                continue
+            for n in ((1, 2, 3) if thorough else (3,)):
+                for pool in ((True, False) if thorough else (True,)):
+                    cases.append(end_case(verb, main_place, how, pool=pool, actors=n))
+        if thorough:
+            for how in ("close", "rst", "quit"):
+                cases.append(end_case(verb, ("gate", "open", 1) if verb in ("RETR", "STOR", "APPE") else ("nodata",), how, actors=3))
         for how in HOWS:
             cases.append(end_case(verb, ("gate", "seek", 1), how, rest=2))
             if verb in ("RETR", "STOR", "APPE"):
